@@ -23,6 +23,13 @@ plan[.<tag>] <topology> <strategies> <tablets> <config> <request> <tbl> <samples
   model: prints R / D itself; the part after `|` is CHECKED (every observed first target must be the head of
          `routePlan` for some random choices) and echoed, else `REJECT ..`.
 
+hist[.<tag>] <topology> <strategies> <ops> <config> <request> <tbl> <samples>
+    ops := "-" | op ("+" op)*     op := "T" ks "." tbl "@" tablet   (one `update_tablets`; replicas may name unknown hosts)
+                                      | "E" ks "." tbl              (table declared in the tablet-based keyspace)
+                                      | "R" topology                (metadata refresh = `ClusterState::new_updated`)
+    the observation (same implementation / model lines as `plan`) is made on the state after the last op; a node object
+    survives a refresh iff its datacenter, rack and position in the peer list (= address) are unchanged.
+
 pool <nr> <msb> <S<k>|H<k>> <p|n|q> <requested shards>      route <nr> <msb> <S<k>|H<k>> <p|n|q> <tokens>
     (q: the scripted server reports the NEXT shard for shard-aware-port connections; irrelevant to the model, which
      is given the pooled shards as the server knows them)
@@ -163,38 +170,106 @@ def firstTargets (rc : RCluster) (cfg : Config) (r : RRequest) : List (Option Ta
   let heads := if picks.any Option.isNone then rots.map (fun ρ => (planOf none (fbOf ρ)).head?) else []
   somes ++ heads
 
+/-- The observation part of a `plan` / `hist` case on the cluster the case describes. -/
+def observe (rc : RCluster) (cfg : Config) (rq : Request) (tbl : Nat) (impl : String) : String :=
+  let r : RRequest := ⟨rq, tbl⟩
+  let cl := rc.toCluster rq.token
+  -- deterministic part: the replica set of the token (as `TokenWithStrategy` + `replicas_for_token` see it)
+  let ts := tokenWithStrategy cl { cfg with tokenAware := true } rq
+  let pref := preference cfg rq
+  let (rAll, rDc) : String × String := match ts with
+    | some (strat, tok) =>
+      (showReps (replicasOf rc r strat tok none),
+        match pref.datacenter with
+        | some d => showReps (replicasOf rc r strat tok (some d))
+        | none => "x")
+    | none => ("x", "x")
+  let pre := s!"R={rAll} D={rDc} |"
+  let firsts := firstTargets rc cfg r
+  let okPlan : List String := firsts.map (fun o => match o with | some t => showPlanObs t | none => "-")
+  let okPf : List String := firsts.map (fun o => match o with | some t => showPfObs t | none => "-")
+  match (words impl).dropWhile (· != "|") with
+  | [_, p, f] =>
+    if !(p.startsWith "plan=" && f.startsWith "pf=") then pre ++ " REJECT unparsable" else
+    let ps := ((p.drop 5).toString.splitOn ",")
+    let fs := ((f.drop 3).toString.splitOn ",")
+    match ps.find? (fun o => !firsts.any (planObsOk rc o)), fs.find? (fun o => !okPf.contains o) with
+    | some bad, _ => pre ++ s!" REJECT plan-first-target {bad} not-in {" ".intercalate okPlan.eraseDups}"
+    | none, some bad => pre ++ s!" REJECT policy-first-target {bad} not-in {" ".intercalate okPf.eraseDups}"
+    | none, none => pre ++ " " ++ p ++ " " ++ f
+  | _ => pre ++ " REJECT no-samples-part"
+
 def runPlan (topo kss tabs cfg req tbl nSamples impl : String) : String :=
   match parseTopologyEx topo, parseStrategies kss, parseTables tabs, parseConfig cfg, parseRequest req, tbl.toNat?,
       nSamples.toNat? with
   | some ps, some ks, some tables, some cfg, some rq, some tbl, some _ =>
     if ps.any (fun p => (parseFlags p.2).isNone) then "bad-case" else
-    let rc := mkRCluster ps ks tables
-    let r : RRequest := ⟨rq, tbl⟩
-    let cl := rc.toCluster rq.token
-    -- deterministic part: the replica set of the token (as `TokenWithStrategy` + `replicas_for_token` see it)
-    let ts := tokenWithStrategy cl { cfg with tokenAware := true } rq
-    let pref := preference cfg rq
-    let (rAll, rDc) : String × String := match ts with
-      | some (strat, tok) =>
-        (showReps (replicasOf rc r strat tok none),
-          match pref.datacenter with
-          | some d => showReps (replicasOf rc r strat tok (some d))
-          | none => "x")
-      | none => ("x", "x")
-    let pre := s!"R={rAll} D={rDc} |"
-    let firsts := firstTargets rc cfg r
-    let okPlan : List String := firsts.map (fun o => match o with | some t => showPlanObs t | none => "-")
-    let okPf : List String := firsts.map (fun o => match o with | some t => showPfObs t | none => "-")
-    match (words impl).dropWhile (· != "|") with
-    | [_, p, f] =>
-      if !(p.startsWith "plan=" && f.startsWith "pf=") then pre ++ " REJECT unparsable" else
-      let ps := ((p.drop 5).toString.splitOn ",")
-      let fs := ((f.drop 3).toString.splitOn ",")
-      match ps.find? (fun o => !firsts.any (planObsOk rc o)), fs.find? (fun o => !okPf.contains o) with
-      | some bad, _ => pre ++ s!" REJECT plan-first-target {bad} not-in {" ".intercalate okPlan.eraseDups}"
-      | none, some bad => pre ++ s!" REJECT policy-first-target {bad} not-in {" ".intercalate okPf.eraseDups}"
-      | none, none => pre ++ " " ++ p ++ " " ++ f
-    | _ => pre ++ " REJECT no-samples-part"
+    observe (mkRCluster ps ks tables) cfg rq tbl impl
+  | _, _, _, _, _, _, _ => "bad-case"
+
+/-! ### hist cases: tablet updates interleaved with metadata refreshes -/
+
+/-- One step of a history. -/
+inductive HOp where
+  /-- `update_tablets` with one tablet of table `k<ks>.t<tbl>` -/
+  | learn (ks tbl : Nat) (t : Int × Int × List (Nat × Nat))
+  /-- the table exists in the (tablet-based) keyspace without any tablet learnt -/
+  | declare (ks tbl : Nat)
+  /-- a metadata refresh to this topology -/
+  | refresh (ps : List (Peer × String))
+
+def parseKsTbl (s : String) : Option (Nat × Nat) :=
+  match s.splitOn "." with
+  | [ks, tb] => match ks.toNat?, tb.toNat? with
+    | some ks, some tb => some (ks, tb)
+    | _, _ => none
+  | _ => none
+
+def parseHOp (s : String) : Option HOp :=
+  if s.startsWith "T" then
+    match (s.drop 1).toString.splitOn "@" with
+    | [name, t] => match parseKsTbl name, parseTablet t with
+      | some (ks, tb), some t => some (.learn ks tb t)
+      | _, _ => none
+    | _ => none
+  else if s.startsWith "E" then (parseKsTbl (s.drop 1).toString).map (fun (ks, tb) => .declare ks tb)
+  else if s.startsWith "R" then (parseTopologyEx (s.drop 1).toString).map .refresh
+  else none
+
+def parseHOps (s : String) : Option (List HOp) :=
+  if s == "-" then some [] else (s.splitOn "+").mapM parseHOp
+
+def ksName (i : Nat) : String := "k" ++ Nat.repr i
+def tblName (j : Nat) : String := "t" ++ Nat.repr j
+
+/-- The known nodes of a peer list: the hook derives the address from the position. -/
+def peersWithAddr (ps : List (Peer × String)) : List (Node × Nat) := ps.zipIdx.map (fun (p, i) => (p.1.node, i))
+
+/-- The model's view of one op (`declare` only contributes to the keyspace metadata). -/
+def HOp.toStateOp : HOp → Option StateOp
+  | .learn ks tb t => some (.learn (ksName ks, tblName tb) t.1 t.2.1 t.2.2)
+  | .declare _ _ => none
+  | .refresh ps => some (.refresh (peersWithAddr ps))
+
+def runHist (topo kss opsS cfg req tbl nSamples impl : String) : String :=
+  match parseTopologyEx topo, parseStrategies kss, parseHOps opsS, parseConfig cfg, parseRequest req, tbl.toNat?,
+      nSamples.toNat? with
+  | some ps0, some ks, some ops, some cfg, some rq, some tbl, some _ =>
+    let topos : List (List (Peer × String)) := ps0 :: ops.filterMap (fun o => match o with | .refresh ps => some ps | _ => none)
+    let allPeers := topos.flatten
+    -- flags well-formed; a host keeps its sharder for the whole history (it is a property of the node)
+    if allPeers.any (fun p => (parseFlags p.2).isNone) then "bad-case" else
+    if allPeers.any (fun p => allPeers.any (fun q => q.1.node.id == p.1.node.id && parseFlags q.2 != parseFlags p.2)) then "bad-case" else
+    let declared : List (Nat × Nat) := (ops.filterMap (fun o => match o with
+      | .learn ks tb _ => some (ks, tb) | .declare ks tb => some (ks, tb) | .refresh _ => none)).eraseDups
+    let kssMeta : List (String × Bool × List String) := ks.zipIdx.map (fun (_, i) =>
+      (ksName i, declared.any (·.1 == i), (declared.filter (·.1 == i)).map (fun d => tblName d.2)))
+    let inf := ((RState.init kssMeta (peersWithAddr ps0)).run kssMeta (ops.filterMap HOp.toStateOp)).tablets
+    let psFinal := topos.getLast?.getD ps0
+    let rc0 := mkRCluster psFinal ks []
+    let rc : RCluster := { rc0 with
+      tables := declared.filterMap (fun d => (Tablets.alGet (ksName d.1, tblName d.2) inf.tables).map (fun t => (d, t.tablets))) }
+    observe rc cfg rq tbl impl
   | _, _, _, _, _, _, _ => "bad-case"
 
 /-! ### pool / route cases -/
@@ -256,7 +331,9 @@ def runPool (route : Bool) (nrS msbS sizeS portS reqS impl : String) : String :=
 def run (case impl : String) : String :=
   match words case with
   | [head, topo, kss, tabs, cfg, req, tbl, nSamples] =>
-    if head == "plan" || head.startsWith "plan." then runPlan topo kss tabs cfg req tbl nSamples impl else "bad-case"
+    if head == "plan" || head.startsWith "plan." then runPlan topo kss tabs cfg req tbl nSamples impl
+    else if head == "hist" || head.startsWith "hist." then runHist topo kss tabs cfg req tbl nSamples impl
+    else "bad-case"
   | [head, nr, msb, size, port, reqs] =>
     if head == "pool" || head.startsWith "pool." then runPool false nr msb size port reqs impl
     else if head == "route" || head.startsWith "route." then runPool true nr msb size port reqs impl
